@@ -417,8 +417,12 @@ func rulePEst(c *Ctx) {
 			detail = fmt.Sprintf("%v %v", atoms, table)
 			if len(atoms) == 2 {
 				a0, a1 := atoms[0], atoms[1]
-				isLen := func(a string) bool { return strings.HasPrefix(a, "(len(*"+in) && strings.HasSuffix(a, ".UnlockingScript) == 0)") }
-				isNil := func(a string) bool { return strings.HasPrefix(a, "("+in) && strings.HasSuffix(a, ".UnlockingScript == nil)") }
+				isLen := func(a string) bool {
+					return strings.HasPrefix(a, "(len(*"+in) && strings.HasSuffix(a, ".UnlockingScript) == 0)")
+				}
+				isNil := func(a string) bool {
+					return strings.HasPrefix(a, "("+in) && strings.HasSuffix(a, ".UnlockingScript == nil)")
+				}
 				// atoms are sorted: "(len(...) == 0)" < "(*bt.Tx)..."? compare both orders
 				switch {
 				case isLen(a0) && isNil(a1):
